@@ -9,10 +9,11 @@ SPEC = {
     "level": "proof",
     "level_text": "full-strength statement (Distinguishes: equal pre-images of well-formed repo-managed trees imply equal "
                   "trees) is DISPROVED for the pinned code by kernel-checked witnesses (C09_violated, C09_witness_*); proved "
-                  "instead: C09_classified (every collision has one of four named root causes; outside them the property "
-                  "holds), C09_partial_{file,symlink,same_skeleton,edit,size}, and C09_full_framed (the framed encoder of the "
+                  "instead: C09_dir_iff / C09_symlink_iff (exact collision conditions), C09_classified (the four named root causes "
+                  "are exhaustive), C09_partial_{file,symlink,same_skeleton,edit,size}, and C09_full_framed (the framed encoder of the "
                   "fix sketch is injective, unbounded, by mutual structural induction over Frame.Uniq). The model leaves out "
-                  "memoisation, xattr read/store, timestamp mode, I/O errors, special files and permission bits.",
+                  "memoisation, the xattr read/store path (hash.go:173 returns a stored xattr without looking at the tree; "
+                  "switched off in the correspondence), timestamp mode, I/O errors, special files and permission bits.",
     "technique": "Lean 4 theorems over a schema-interpreting model of the hash pre-image + regenerated write schema + "
                  "differential correspondence on the captured pre-image byte stream",
     "trusted": [
